@@ -58,169 +58,149 @@ def check(src, rep):
         rep.ok("R1", f"{len(lits)} OBIS literals", "six decimal groups, each 0..255 (the range of the decoder's join of six octets)")
     rep.count("obis_literals", len(lits))
     rep.floor("OBIS literals", len(lits), 8)
-    # ---------------------------------------------------------------- R3 tables
-    # the two tables are the alternatives of the conditional expression that selects the scaling table
-    tabs = None
-    for n in ast.walk(fn.node):
-        if isinstance(n, ast.IfExp) and isinstance(n.body, ast.Name) and isinstance(n.orelse, ast.Name):
-            tabs = (n, n.body.id, n.orelse.id)
-    rep.require(tabs is not None, "cannot find the selection between the two scaling tables")
+    # ---------------------------------------------------------------- R2-R5: the public normalisers on abstract parsed lists (E-ABS)
+    from sa.abseval import AbsEval, AObj, Sym
+    from sa.decoders import obis_hook
+    from sa.sveval import Res
     try:
-        t_body, t_else = ce.module_value(MOD, tabs[1]), ce.module_value(MOD, tabs[2])
+        name_map = ce.module_value("obis_map", "obis_name_map")
+        MAN = ce.module_value("obis_map", "FIELD_METER_MANUFACTURER")
+        LISTVER = ce.module_value("obis_map", "FIELD_OBIS_LIST_VER_ID")
+        MDT = ce.module_value("obis_map", "FIELD_METER_DATETIME")
     except NotConstant as e:
-        raise Undecided(f"scaling tables are not constant: {e}")
-    # which is the CT table: decided below from the selecting test; here: one must equal each documented table
-    cand = {tabs[1]: t_body, tabs[2]: t_else}
-    ct_name = next((k for k, v in cand.items() if v == CT), None) or next((k for k, v in cand.items() if v.get(CUR[0]) == -3), tabs[1])
-    std_name = next(k for k in cand if k != ct_name)
-    std, ct = cand[std_name], cand[ct_name]
-    for name, got, want in ((std_name, std, STD), (ct_name, ct, CT)):
-        if got == want:
-            rep.ok("R3", name, "currents 10^%d, energies 10^1, nothing else" % (want[CUR[0]]))
-        else:
-            diff = [k for k in set(got) | set(want) if got.get(k) != want.get(k)]
-            rep.violation("R3", f"kamstrup.{name}", f"table:{name}", "scaling table differs from the documented scaling", file, 1, witness="; ".join(f"{k}: {got.get(k)} (expected {want.get(k)})" for k in sorted(diff)))
-    # ---------------------------------------------------------------- R2 CT detection + table selection (prologue of the normaliser)
-    body = fn.node.body
-    loop = next((s for s in body if isinstance(s, ast.For)), None)
-    rep.require(loop is not None, "kamstrup normaliser has no item loop")
-    pro = body[:body.index(loop)]
-    assigns = {s.targets[0].id: s.value for s in pro if isinstance(s, ast.Assign) and isinstance(s.targets[0], ast.Name)}
-    assigns.update({s.target.id: s.value for s in pro if isinstance(s, ast.AnnAssign) and isinstance(s.target, ast.Name) and s.value is not None})
-    sel_var = sel_lit = None
-    for name, v in assigns.items():
-        if isinstance(v, ast.Call) and isinstance(v.func, ast.Name) and v.func.id == "next" and v.args and isinstance(v.args[0], ast.GeneratorExp):
-            g = v.args[0]
-            if g.generators and g.generators[0].ifs and isinstance(g.generators[0].ifs[0], ast.Compare):
-                c = g.generators[0].ifs[0]
-                sides = [c.left, c.comparators[0]]
-                lit = next((x.value for x in sides if isinstance(x, ast.Constant)), None)
-                attr = next((x for x in sides if isinstance(x, ast.Attribute) and x.attr == "obis"), None)
-                if lit is not None and attr is not None and isinstance(c.ops[0], ast.Eq):
-                    sel_var, sel_lit = name, lit
-    if sel_var is None:
-        rep.violation("R2", f"kamstrup.{fn.name}", "meter-type-lookup", "the meter-type element is not looked up by its OBIS code", file, fn.node.lineno)
-    elif sel_lit != METER_TYPE:
-        rep.violation("R2", f"kamstrup.{fn.name}", "meter-type-code", f"the meter-type element is looked up with OBIS code {sel_lit!r} instead of {METER_TYPE!r}", file, fn.node.lineno)
-    ct_var = None
-    ct_expr = None
-    for name, v in assigns.items():
-        if any(isinstance(n, ast.Call) and isinstance(n.func, ast.Attribute) and n.func.attr == "startswith" for n in ast.walk(v)):
-            ct_var, ct_expr = name, v
-    if ct_expr is None:
-        rep.violation("R2", f"kamstrup.{fn.name}", "ct-test-missing", "no CT-meter detection (startswith on the meter type number)", file, fn.node.lineno)
+        raise Undecided(f"obis_map tables not constant: {e}")
+    fr_fn, bo_fn = M.funcs.get("kamstrup.normalize_parsed_frame"), M.funcs.get("kamstrup.normalize_parsed_notification")
+    rep.require(fr_fn is not None and bo_fn is not None, "anchor vanished: kamstrup normalisers")
+
+    def cdr(c):
+        return ".".join(c.split(".")[2:5])
+
+    def key_of(c):
+        return name_map.get(cdr(c), cdr(c))
+
+    def exact(term, reg, exp):
+        """term is an exact-scaling idiom (DESIGN.md A.6) of reg x 10^exp"""
+        if exp > 0:
+            return term == Res("Mult", reg, 10 ** exp)
+        k = 10 ** -exp
+        return term in (Res("Div", reg, k), Res("round", Res("Mult", reg, 10.0 ** exp), -exp), Res("round", Res("Div", reg, k), -exp),
+                        Res("float", Res("Div", Res("Decimal", reg), k)), Res("float", Res("Mult", Res("Decimal", reg), Res("Pow", Res("Decimal", 10), exp))))
+
+    VER, MID, PWR, VOLT, DT, ADT, UNK = Sym("list_version", "str"), Sym("meter_id", "str"), Sym("power", "int"), Sym("voltage", "int"), Sym("clock", "datetime"), Sym("apdu_clock", "datetime"), Sym("other", "int")
+    cur = {c: Sym(f"I{k}", "int") for k, c in enumerate(CUR)}
+    ene = {c: Sym(f"E{k}", "int") for k, c in enumerate(ENE)}
+    n_cases = 0
+    AE = AbsEval(M, hooks={"Obis.from_string": obis_hook})
+    bad4 = bad5 = bad2 = 0
+    und = None
+    shown = set()
+
+    def V(rule, tag, text, witness=None, fnname=None):
+        if (rule, tag) in shown:
+            return
+        shown.add((rule, tag))
+        rep.violation(rule, f"kamstrup.{fnname or fn.name}", tag, text, file, (M.funcs.get(f'kamstrup.{fnname}').node.lineno if fnname else fn.node.lineno), witness=witness)
+
+    for mt_desc, mt_val, is_ct in (("type number 6851...", "6851131BN243101040", True), ("type number 6841...", "6841131BN243101040", False), ("no meter-type element", None, False),
+                                   ("meter-type element that is not text", Sym("type_as_int", "int"), False), ("type number 1685...", "16851131BN24310104", False)):
+        for empty_obis in (None, ""):
+            items = [AObj("Container", {"obis": empty_obis, "value": VER}), AObj("Container", {"obis": "1.1.0.0.5.255", "value": MID})]
+            if mt_val is not None:
+                items.append(AObj("Container", {"obis": METER_TYPE, "value": mt_val}))
+            items.append(AObj("Container", {"obis": "1.1.1.7.0.255", "value": PWR}))
+            for c in CUR:
+                items.append(AObj("Container", {"obis": c, "value": cur[c]}))
+            items.append(AObj("Container", {"obis": "1.1.32.7.0.255", "value": VOLT}))
+            items.append(AObj("Container", {"obis": "0.1.1.0.0.255", "value": AObj("Container", {"datetime": DT})}))
+            for c in ENE:
+                items.append(AObj("Container", {"obis": c, "value": ene[c]}))
+            items.append(AObj("Container", {"obis": "1.1.250.251.252.255", "value": UNK}))
+            table = CT if is_ct else STD
+            for which, f_, arg in (("body", bo_fn, AObj("Container", {"list_items": items})),
+                                   ("frame", fr_fn, AObj("Container", {"information": AObj("Container", {"notification_body": AObj("Container", {"list_items": items}), "DateTime": AObj("Container", {"datetime": ADT})})}))):
+                res = AE.apply(f_, [arg])  # one interpreter state for all lists: module-level tables mutated by an earlier decode are seen by the later ones
+                n_cases += 1
+                desc = f"{which} list with {mt_desc}"
+                if res[0] in ("undecided", "branch"):
+                    und = f"{desc}: {res[1]!r}"
+                    break
+                if res[0] == "raise":
+                    if res[1] == "KeyError":
+                        bad5 += 1
+                        V("R5", "naming", "the common-name table is indexed without a membership test (unknown OBIS codes raise KeyError)", desc)
+                    elif res[1] in ("AttributeError", "TypeError"):
+                        bad2 += 1
+                        V("R2", "ct-test-type", f"the normaliser raises {res[1]} for a {desc}: the CT test / value handling is not well-typed for this list", desc)
+                    else:
+                        bad5 += 1
+                        V("R5", "normaliser-raises", f"the normaliser raises {res[1]} for a well-formed {desc}", desc)
+                    continue
+                got = res[1]
+                if not isinstance(got, dict):
+                    und = f"{desc}: normaliser does not return a dictionary"
+                    break
+                # scaled registers
+                for c, reg in list(cur.items()) + list(ene.items()):
+                    g = got.get(key_of(c), None)
+                    if g is None or not exact(g, reg, table[c]):
+                        other = CT if table is STD else STD
+                        if g is not None and table[c] != other[c] and exact(g, reg, other[c]):
+                            bad2 += 1
+                            V("R2", "ct-selection", "the CT scaling is not applied exactly when the meter type number (text, element 1.1.96.1.1.255) starts with '685' - also after lists of the other kind have been decoded", f"{desc}: {cdr(c)} stored as {g!r}")
+                        elif g is not None and any(exact(g, reg, e) for e in (-3, -2, -1, 1, 2, 3)):
+                            bad4 += 1
+                            V("R3", f"table:{'ct' if is_ct else 'standard'}", "scaling table differs from the documented scaling (currents 10^-2, CT meters 10^-3; energies 10^1)", f"{desc}: {cdr(c)} stored as {g!r}, expected exponent {table[c]}")
+                        elif g == reg:
+                            bad4 += 1
+                            V("R3", "scale-missing", "a register with a documented scaling is stored unscaled: its OBIS code is missing from the scaling table (or the exponent is not looked up by the element's code)", f"{desc}: {cdr(c)} stored as {g!r}")
+                        else:
+                            bad4 += 1
+                            V("R4", f"inexact-scaling:exponent{table[c]}", f"for exponent {table[c]} the register is not scaled by an exact idiom "
+                              + ("(multiplying by 10**-n uses a binary approximation: 35 -> 0.35000000000000003)" if table[c] < 0 else "(an exact integer product is required)"), f"{desc}: {cdr(c)} stored as {g!r}")
+                # unscaled / verbatim / names
+                want = {MAN: "Kamstrup", LISTVER: VER, key_of("1.1.0.0.5.255"): MID, key_of("1.1.1.7.0.255"): PWR, key_of("1.1.32.7.0.255"): VOLT, "250.251.252": UNK,
+                        MDT: ADT if which == "frame" else DT}
+                if mt_val is not None:
+                    want[key_of(METER_TYPE)] = mt_val
+                for k, v in want.items():
+                    if k not in got:
+                        bad5 += 1
+                        if k == LISTVER:
+                            V("R5", "list-version-name", "the element without OBIS code is not stored as list_ver_id", f"{desc} (obis = {empty_obis!r})")
+                        else:
+                            V("R5", "naming", f"an element is not stored under {k!r} (obis_name_map[C.D.E] when known, else C.D.E)", f"{desc}; keys {sorted(map(str, got))[:6]}")
+                    elif got[k] != v:
+                        bad5 += 1
+                        if k == MDT and which == "frame":
+                            V("R5", "apdu-clock", "for frames the meter clock is not unconditionally the APDU date-time (it must override the list's clock element)", f"{desc}: {got[k]!r}", fnname="normalize_parsed_frame")
+                        elif k == MDT:
+                            V("R5", "clock-element", "the clock element is not stored as the decoded datetime", f"{desc}: {got[k]!r}")
+                        elif k == MAN:
+                            V("R5", "manufacturer", "the manufacturer field is not the constant 'Kamstrup'", repr(got[k]))
+                        elif v in (PWR, VOLT, UNK):
+                            V("R4", "unscaled-changed", "a register without scaling entry is not stored unchanged", f"{desc}: {k} stored as {got[k]!r}")
+                        else:
+                            V("R5", "text-not-verbatim", "a text value is transformed before it is stored", f"{desc}: {k} stored as {got[k]!r}")
+                extra = [k for k in got if k not in want and k not in {key_of(c) for c in CUR + ENE}]
+                if extra:
+                    bad5 += 1
+                    V("R5", "stores-per-element", f"the dictionary has entries no element accounts for: {extra[:3]}", desc)
+            if und:
+                break
+        if und:
+            break
+    n_paths = n_cases
+    if und:
+        rep.undecide(f"R4 the kamstrup normaliser is outside the interpreted subset / branches on an undetermined condition for a {und}")
     else:
-        sw = next(n for n in ast.walk(ct_expr) if isinstance(n, ast.Call) and isinstance(n.func, ast.Attribute) and n.func.attr == "startswith")
-        recv = ast.unparse(sw.func.value)
-        arg = sw.args[0].value if sw.args and isinstance(sw.args[0], ast.Constant) else None
-        typed = recv == f"{sel_var}.value"
-        guarded = f"{sel_var} is not None" in ast.unparse(ct_expr)
-        if arg != "685":
-            rep.violation("R2", f"kamstrup.{fn.name}", "ct-prefix", f"CT meters are detected by the prefix {arg!r} instead of '685'", file, sw.lineno)
-        elif not typed:
-            rep.violation("R2", f"kamstrup.{fn.name}", "ct-test-type", "startswith is not called on the text value of the meter-type element (the element container has no such method)", file, sw.lineno, witness=recv)
-        elif not guarded:
-            rep.violation("R2", f"kamstrup.{fn.name}", "ct-test-none", "the CT test dereferences the meter-type element without checking that it was found", file, sw.lineno)
-        else:
-            rep.ok("R2", "CT detection", f"{sel_var}.value.startswith('685') on the element whose OBIS code is {METER_TYPE}, guarded by presence (and text type)")
-    tab_var = None
-    for name, v in assigns.items():
-        if isinstance(v, ast.IfExp) and {ast.unparse(v.body), ast.unparse(v.orelse)} == {ct_name, std_name}:
-            tab_var = name
-            ok_sel = ast.unparse(v.test) == ct_var and ast.unparse(v.body) == ct_name
-            neg_sel = ast.unparse(v.test) == f"not {ct_var}" and ast.unparse(v.orelse) == ct_name
-            if ok_sel or neg_sel:
-                rep.ok("R3", "table selection", "the CT table exactly when the CT test holds, else the standard table")
-            else:
-                rep.violation("R3", f"kamstrup.{fn.name}", "table-selection", "the CT scaling table is not selected exactly when the CT test holds", file, v.lineno, witness=ast.unparse(v)[:100])
-    if tab_var is None:
-        rep.violation("R3", f"kamstrup.{fn.name}", "table-selection-missing", "the scaling table is not chosen between the standard and the CT table", file, fn.node.lineno)
-    # ---------------------------------------------------------------- R4/R5: item loop
-    E = Engine(M)
-    node, ps = loop_body_paths(E, fn)
-    item = ("iter", ("p", fn.params[0]), node.lineno)
-    vsv = ("f0", item, "value")
-    osv = ("f0", item, "obis")
-    n_paths = 0
-    bad4 = bad5 = 0
-    for p in ps:
-        if p.status == "raise":
-            continue
-        st = setitems(p)
-        if len(st) != 1:
-            bad5 += 1
-            rep.violation("R5", f"kamstrup.{fn.name}", "stores-per-element", f"an element produces {len(st)} dictionary entries", file, node.lineno)
-            continue
-        key, value, line = st[0]
-        n_paths += 1
-        has_obis = None
-        is_int = None
-        scale_truthy = None
-        scale_sv = None
-        is_dt = None
-        for g, pol, _ in p.guards:
-            gs = strip_epoch(g)
-            if gs == osv:
-                has_obis = pol
-            elif gs[0] == "call" and gs[1] == "isinstance" and gs[2][0] == vsv:
-                is_int = pol
-            elif gs[0] == "call" and str(gs[1]).endswith(".get") and len(gs[2]) >= 2 and gs[2][1] == osv:
-                scale_truthy, scale_sv = pol, gs
-            elif gs[0] == "cmp" and gs[1] == "Eq" and gs[3] == ("c", "meter_datetime"):
-                is_dt = pol
-        if has_obis is False:
-            if key != ("c", "list_ver_id"):
-                bad5 += 1
-                rep.violation("R5", f"kamstrup.{fn.name}", "list-version-name", "the element without OBIS code is not stored as list_ver_id", file, line, witness=show_sv(key)[:60])
-        else:
-            nv = naming_verdict(key, p.guards, item)
-            if nv:
-                bad5 += 1
-                rep.violation("R5", f"kamstrup.{fn.name}", "naming", nv, file, line)
-        if is_dt:
-            if value != ("f0", vsv, "datetime"):
-                bad5 += 1
-                rep.violation("R5", f"kamstrup.{fn.name}", "clock-element", "the clock element is not stored as the decoded datetime", file, line)
-            continue
-        if is_int and scale_truthy:
-            # value expression by sign of the exponent
-            for s_val in (-3, -2, 1):
-                env = {scale_sv: s_val}
-                expr = value
-                # resolve conditional expressions on the exponent
-                while expr[0] == "ite":
-                    try:
-                        c = _ev(_subst(expr[1], scale_sv, ("c", s_val)), {})
-                    except CannotEval:
-                        break
-                    expr = expr[2] if c else expr[3]
-                kind, okneg, okpos = scaling_idiom(expr, vsv, scale_sv)
-                if kind == "other":
-                    rep.undecide(f"R4 stored value outside the idiom catalogue: {show_sv(expr)[:100]}")
-                    break
-                if (s_val < 0 and not okneg) or (s_val > 0 and not okpos):
-                    bad4 += 1
-                    rep.violation("R4", f"kamstrup.{fn.name}", f"inexact-scaling:exponent{s_val}", f"for exponent {s_val} the register is scaled by `{kind}`: "
-                                  + ("multiplying by 10**-n uses a binary approximation (35 -> 0.35000000000000003)" if s_val < 0 else "dividing where an exact integer product is required"),
-                                  file, line, witness=show_sv(expr)[:100])
-                    break
-        elif is_int and scale_truthy is False:
-            if value != vsv:
-                bad4 += 1
-                rep.violation("R4", f"kamstrup.{fn.name}", "unscaled-changed", "a register without scaling entry is not stored unchanged", file, line)
-        elif is_int is False:
-            if value != vsv:
-                bad5 += 1
-                rep.violation("R5", f"kamstrup.{fn.name}", "text-not-verbatim", "a text value is transformed before it is stored", file, line)
-    # the scale lookup uses the selected table with the element's six-part code
-    gets = [n for n in ast.walk(loop) if isinstance(n, ast.Call) and isinstance(n.func, ast.Attribute) and n.func.attr == "get" and ast.unparse(n.func.value) == (tab_var or "")]
-    if tab_var and not (gets and all(ast.unparse(g.args[0]).endswith(".obis") for g in gets)):
-        bad4 += 1
-        rep.violation("R4", f"kamstrup.{fn.name}", "scale-lookup", "the exponent is not looked up in the selected table by the element's OBIS code", file, loop.lineno)
-    if not bad4 and n_paths:
-        rep.ok("R4", "scaling idiom", "negative exponents divide by the exact power of ten, positive ones multiply integers; unscaled registers stored as parsed")
-    if not bad5 and n_paths:
-        rep.ok("R5", f"{n_paths} element paths", "names through obis_name_map with membership test; list_ver_id for the OBIS-less element; clock and text stored unchanged")
+        if not bad2:
+            rep.ok("R2", "CT detection", f"CT scaling exactly for a text meter type number starting with '685' (element {METER_TYPE}); no type error without that element or with a non-text value ({n_cases} abstract lists)")
+            rep.ok("R3", "scaling tables", "currents 10^-2 (CT meters 10^-3), energies 10^1, nothing else is scaled; the CT table exactly when the CT test holds")
+        if not bad4:
+            rep.ok("R4", "scaling idiom", "negative exponents divide by the exact power of ten, positive ones multiply integers; unscaled registers stored as parsed (symbolic registers)")
+        if not bad5:
+            rep.ok("R5", f"{n_cases} abstract lists", "names through obis_name_map, C.D.E for unknown codes; list_ver_id for the OBIS-less element; clock and text stored unchanged; manufacturer 'Kamstrup'")
+            rep.ok("R5", "frame clock", "for frames the APDU date-time is assigned to meter_datetime and overrides a clock element of the list")
     cg = cdr_groups_finding(M)
     if cg:
         rep.violation("R5", "obis.Obis.to_group_cdr_str", "cde-groups", cg, src.file("obis"), 1)
@@ -236,23 +216,6 @@ def check(src, rep):
     else:
         rep.violation("R5", "kamstrup.Element", "null-padding", "null-data padding after an element is not skipped greedily: only particular amounts of padding are accepted", file, pad.line or 1,
                       witness=f"{pad.kind}:{[n.kind for n in all_nodes(pad)][:6]}")
-    # frames: APDU clock overwrites after the loop
-    fr_fn = M.funcs.get("kamstrup.normalize_parsed_frame")
-    rep.require(fr_fn is not None, "anchor vanished: kamstrup.normalize_parsed_frame")
-    stmts = fr_fn.node.body
-    call_i = next((i for i, s in enumerate(stmts) if any(isinstance(n, ast.Call) and ast.unparse(n.func) == fn.name for n in ast.walk(s))), None)
-    writes = [(i, n) for i, s in enumerate(stmts) for n in ast.walk(s) if isinstance(n, ast.Assign) and isinstance(n.targets[0], ast.Subscript) and "METER_DATETIME" in ast.unparse(n.targets[0])]
-    soft = [n for s in stmts for n in ast.walk(s) if isinstance(n, ast.Call) and isinstance(n.func, ast.Attribute) and n.func.attr in ("setdefault", "get") and "METER_DATETIME" in ast.unparse(n)]
-    if call_i is not None and writes and all(i > call_i for i, _ in writes) and all(ast.unparse(n.value).endswith("information.DateTime.datetime") for _, n in writes) and not soft:
-        rep.ok("R5", "frame clock", "for frames the APDU date-time is assigned to meter_datetime after the list items were normalised (it overrides a clock element of the list)")
-    else:
-        rep.violation("R5", "kamstrup.normalize_parsed_frame", "apdu-clock", "for frames the meter clock is not unconditionally the APDU date-time (it must override the list's clock element)", file, fr_fn.node.lineno,
-                      witness="setdefault/get used" if soft else "no assignment after the item loop")
-    okm = any(isinstance(d, ast.Dict) and any(isinstance(v, ast.Constant) and v.value == "Kamstrup" for v in d.values) for d in ast.walk(fn.node))
-    if okm:
-        rep.ok("R5", "manufacturer", "meter_manufacturer = 'Kamstrup'")
-    else:
-        rep.violation("R5", f"kamstrup.{fn.name}", "manufacturer", "the manufacturer field is not the constant 'Kamstrup'", file, fn.node.lineno)
     tg = parse_targets(M, MOD)
     if list(routes(frame, bodyg)) and tg == {"decode_frame_content": "LlcPdu", "decode_notification_body": "NotificationBody"}:
         rep.ok("R5", "frame = body", "LlcPdu wraps the same NotificationBody grammar; both entry points share the item normaliser")
@@ -263,7 +226,7 @@ def check(src, rep):
         rep.violation("R5", f"{mod}.{where.split(':')[0]}", f"wire-type:{where}", text, src.file(mod), line)
     from sa.cross import include
     include(rep, src, "C10", {"R1", "R2", "R3", "R4", "R5"}, "R5", "the meter clock is the transmitted date-time")
-    rep.floor("element paths", n_paths, 6)
+    rep.floor("abstract lists evaluated", n_paths, 20)
 
 
 def thorough(src, rep):
